@@ -11,7 +11,9 @@ import numpy as np
 
 from . import engine_driver as E
 
-BOOK = ["no errors", "probe error one", "probe error two"]
+def book_of(k):
+    from .probes import probe_book
+    return {str(c): m for c, m in probe_book(k).items()}
 
 
 def _dig(d, sl=None):
@@ -42,7 +44,7 @@ def one_run(tbl, sched, J=1, seed=0):
     assert T == sum(d for _, d, _ in sched)
     names = [f"kernel_{k:02d}" for k in range(K)]
     hdr = {"K": K, "C": C, "sched": [{"type": t, "dur": d, "thin": th} for t, d, th in sched],
-           "tbl": tbl, "names": names, "book": BOOK, "J": J}
+           "tbl": tbl, "names": names, "books": [book_of(k + 1) for k in range(K)], "J": J}
     ev = {"ev": "results", "crash": "", "log_all": [], "log_post_none": True, "log_post": [],
           "has_summary": False, "summary": [], "df_per_chain": [], "df_merged": [], "sample_info": {},
           "stored_post": -1, "dig_before": {}, "dig_pickle": {}, "dig_post": {}, "dig_arviz_post": {},
@@ -53,7 +55,8 @@ def one_run(tbl, sched, J=1, seed=0):
                   for k in range(K)]
         cfgs = [E.C(0, 1)] if hasattr(E, "C") else None
         cfgs = [{"type": 0, "dur": 1, "thin": 1}] + hdr["sched"]
-        eng, kernels, keys = E.build_engine(K, set(), C, seed, J, cfgs, error_tables=tables, cap=T + 4 * len(sched) + 8)
+        eng, kernels, keys = E.build_engine(K, set(), C, seed, J, cfgs, error_tables=tables, cap=T + 4 * len(sched) + 8,
+                                            error_books=True)
         eng.sample_all_epochs()
         res = eng.get_results()
         ev["log_all"] = _log(res.get_error_log(False).unwrap(), names)
@@ -138,9 +141,9 @@ def jobs(rng, quick=True):
                             elif pat == "posterior_only":
                                 v = rng.choice([0, 1, 2]) if ph[j] else 0
                             elif pat == "single_chain":
-                                v = rng.choice([0, 1, 2]) if c == C - 1 else 0
+                                v = rng.choice([0, 1, 2, -1]) if c == C - 1 else 0
                             else:
-                                v = rng.choice([0, 0, 1, 2])
+                                v = rng.choice([0, 0, 1, 2, -1])
                             tbl[k][c][j] = v
                 import math
                 g = 0
